@@ -24,6 +24,7 @@ type Monitor struct {
 	lastExec map[int]uint64       // token -> highest batch nonce executed externally (as told by the claims)
 	maxH     uint64               // highest external height carried by an observed event
 	imported bool                 // a genesis export/import happened in this history
+	executed map[uint64]bool      // call nonce -> its (successful) result claim has been EXECUTED (ExecuteClaim accepted)
 	evm      map[uint64]bool      // transfer ids created through the crossChain precompile with an ERC-20 token
 	fails    []monFail
 }
@@ -41,7 +42,7 @@ type batchInfo struct {
 type monFail struct{ sig, what string }
 
 func NewMonitor(w *World) *Monitor {
-	return &Monitor{w: w, created: map[uint64]*txInfo{}, calls: map[uint64]*callInfo{}, batchTO: map[uint64]batchInfo{}, lastExec: map[int]uint64{}, evm: map[uint64]bool{}}
+	return &Monitor{w: w, created: map[uint64]*txInfo{}, calls: map[uint64]*callInfo{}, batchTO: map[uint64]batchInfo{}, lastExec: map[int]uint64{}, evm: map[uint64]bool{}, executed: map[uint64]bool{}}
 }
 
 func (m *Monitor) fail(sig, format string, a ...interface{}) {
@@ -423,6 +424,18 @@ func (m *Monitor) refundsExact(op Op, ok bool, prev, cur Snap, pc, cc map[uint64
 }
 
 func (m *Monitor) c06(op Op, ok bool, prev, cur Snap) {
+	if op.Kind == "ExecResult" && ok {
+		if n, found := pendingCall(prev, op.E); found {
+			for _, c := range cur.Calls {
+				if c.Nonce == n {
+					m.fail("C06:bridgecall:result-executed-but-call-still-pending", "the result of bridge call %d (event nonce %d) was executed but the call is still stored: it will be refunded by its time-out although it is settled", n, op.E)
+				}
+			}
+		}
+	}
+	if op.Part != 0 && !ok {
+		m.fail("C06:event-not-applied-in-order", "external event %d of 2 consecutive ones (%s at height %d) was not applied when its quorum completed: a later event was observed first", op.Part, op.Kind, op.H)
+	}
 	// the observed external height only ever takes the height carried by the observed event
 	if cur.Ext != prev.Ext || cur.Fx != prev.Fx {
 		if !(observing(op) && ok && cur.Ext == op.H && cur.Fx == uint64(prev.FxHeight)) {
@@ -474,10 +487,17 @@ func (m *Monitor) c06(op Op, ok bool, prev, cur Snap) {
 			continue
 		}
 		if op.Kind == "ExecResult" && ok {
+			if named, found := pendingCall(prev, op.E); !found || named != p.Nonce {
+				m.fail("C06:call-released-by-unrelated-result", "executing the result claim with event nonce %d (for bridge call %d) removed bridge call %d", op.E, named, p.Nonce)
+			}
 			continue
 		}
 		if !(observing(op) && ok) {
 			m.fail("C06:call-released-without-event", "bridge call %d left the store in a %s step", p.Nonce, op.Kind)
+			continue
+		}
+		if m.executed[p.Nonce] {
+			m.fail("C06:bridgecall:refund-after-executed-result", "bridge call %d (timeout %d) was refunded at observed height %d although its successful result had been observed AND executed on fxcore: executed externally and refunded", p.Nonce, p.Timeout, op.H)
 			continue
 		}
 		if !(p.Timeout <= op.H) {
@@ -487,6 +507,15 @@ func (m *Monitor) c06(op Op, ok bool, prev, cur Snap) {
 			m.fail("C06:bridgecall:refund-after-observed-success", "bridge call %d (timeout %d) refunded at observed height %d although its successful external execution (height < timeout) had already been observed and parked", p.Nonce, p.Timeout, op.H)
 		}
 	}
+}
+
+func pendingCall(s Snap, e uint64) (uint64, bool) {
+	for _, p := range s.Pending {
+		if p.E == e {
+			return p.Nonce, true
+		}
+	}
+	return 0, false
 }
 
 // bookkeeping shared by both monitors
@@ -532,6 +561,13 @@ func (m *Monitor) track(op Op, ok bool, prev, cur Snap) {
 	for _, c := range cur.Calls {
 		if _, seen := m.calls[c.Nonce]; !seen {
 			m.calls[c.Nonce] = &callInfo{call: c}
+		}
+	}
+	if op.Kind == "ExecResult" && ok {
+		for _, p := range prev.Pending {
+			if p.E == op.E && p.Ok {
+				m.executed[p.Nonce] = true
+			}
 		}
 	}
 	if op.Kind == "ObserveResult" && ok {
